@@ -26,9 +26,9 @@ var c15Off = map[string][2]int{"sig": {0, 8}, "rev": {8, 4}, "hsize": {12, 4}, "
 
 func c15Val(cls string, width int, sectors uint64) uint64 {
 	if width == 4 {
-		return map[string]uint64{"zero": 0, "one": 1, "max": 0xFFFFFFFF, "maxm1": 0xFFFFFFFE, "sign": 0x80000000, "ovf": 1 << 25, "dev": sectors}[cls]
+		return map[string]uint64{"zero": 0, "one": 1, "max": 0xFFFFFFFF, "maxm1": 0xFFFFFFFE, "sign": 0x80000000, "ovf": 1 << 25, "dev": sectors, "wrap": 0xFFFFFFFF}[cls]
 	}
-	return map[string]uint64{"zero": 0, "one": 1, "max": ^uint64(0), "maxm1": ^uint64(0) - 1, "sign": 1 << 63, "ovf": 1 << 55, "dev": sectors}[cls]
+	return map[string]uint64{"zero": 0, "one": 1, "max": ^uint64(0), "maxm1": ^uint64(0) - 1, "sign": 1 << 63, "ovf": 1 << 55, "dev": sectors, "wrap": 1 << 55}[cls]
 }
 
 func c15Base(lss int64) (*memdev.Dev, int64) {
@@ -60,11 +60,25 @@ func c15Patch(d *memdev.Dev, hdrOff int64, lss int64, field, val string, fix boo
 	} else {
 		binary.LittleEndian.PutUint64(h[o[0]:], c15Val(val, 8, sectors))
 	}
+	if val == "wrap" && field == "arrlba" {
+		c15WrapLBA(h, lss)
+	}
 	if fix && field != "hcrc" {
 		binary.LittleEndian.PutUint32(h[16:20], 0)
 		binary.LittleEndian.PutUint32(h[16:20], crc32.ChecksumIEEE(h[0:92]))
 	}
 	d.WriteAt(h, hdrOff)
+}
+
+// c15WrapLBA sets the array LBA so that LBA*lss + count*esize wraps around 2^64 to a value < lss.
+func c15WrapLBA(h []byte, lss int64) {
+	count := uint64(binary.LittleEndian.Uint32(h[80:84]))
+	esize := uint64(binary.LittleEndian.Uint32(h[84:88]))
+	t := count * esize
+	// want lba*lss = 2^64 - t + r with 0 <= r < lss and divisible by lss
+	x := -t // 2^64 - t
+	r := (uint64(lss) - x%uint64(lss)) % uint64(lss)
+	binary.LittleEndian.PutUint64(h[72:80], (x+r)/uint64(lss))
 }
 
 func c15Image(t map[string]any) (*memdev.Dev, int64) {
@@ -90,8 +104,10 @@ func c15Image(t map[string]any) (*memdev.Dev, int64) {
 			if str(t, "kind") == "gpt1" {
 				c15Patch(d, off, lss, str(t, "field"), str(t, "val"), str(t, "fix") == "yes", sectors)
 			} else {
-				c15Patch(d, off, lss, str(t, "f1"), str(t, "v1"), false, sectors)
+				// f1 < f2 in the order arrlba, count, esize: patch the size fields first so that a
+				// "wrap" array LBA is computed against the final count and entry size
 				c15Patch(d, off, lss, str(t, "f2"), str(t, "v2"), true, sectors)
+				c15Patch(d, off, lss, str(t, "f1"), str(t, "v1"), true, sectors)
 			}
 		}
 		return d, lss
@@ -237,7 +253,7 @@ func C15(c *core.Ctx) {
 	c.Level = "fault_enumeration"
 	c.Rule = "case = one corruption tuple of GptParse.tla: (copy, header field, boundary value, header CRC recomputed or not) for every field of the GPT header; all 2-field combinations of {array LBA, entry count, entry size} with the CRC fixed; truncated devices; MBR field corruptions; seeded random images; enumerated by TLC, each executed in a child process (deadline, address-space limit, TotalAlloc accounting); non-trivial = a corruption that changes the bytes of a valid image (all tuples; distinct key = tuple)"
 	c.Assumptions = []string{"child process with ulimit -v 6 GiB and a 15 s deadline per case; allocation measured as runtime TotalAlloc delta around partition.Read", "allocation bound 8 x device size + 64 MiB", "independent parser (rawpt) decides CRC validity of the copy a table was taken from"}
-	nrand, pairs := 200, "FALSE"
+	nrand, pairs := 200, "TRUE"
 	if c.Tier == "thorough" {
 		nrand, pairs = 5000, "TRUE"
 	}
